@@ -66,7 +66,7 @@ const histRule = "adaptive random histories of work-tree edits and goit invocati
 	"a case is distinct by its recorded script"
 
 func init() {
-	checks["C03"] = histCheck("C03", []string{"C03.world_closed", "C03.world_staged_blobs_readable", "C03.world_step_closed", "C03.inv_run", "C03.inv_step", "C03.objects_monotone", "C03.world_connected", "C03.world_step_connected", "C03.noClash_of_not_commit", "C03.world_objects_monotone", "C03.world_history_objects_monotone", "C03.put_monotone", "C03.puts_monotone", "C03.put_present", "C03.name_is_hash", "C03.branch_target_present", "C10.add_invalid", "C19.get_returns_requested"}, histRule+"; hostile stream: ids of blobs/trees given to update-ref, names with '/', '..', resets to zero-id reflog entries",
+	checks["C03"] = histCheck("C03", []string{"C03.world_fsck", "C03.world_step_fsck", "C03.world_closed", "C03.world_staged_blobs_readable", "C03.world_step_closed", "C03.inv_run", "C03.inv_step", "C03.objects_monotone", "C03.world_connected", "C03.world_step_connected", "C03.noClash_of_not_commit", "C03.world_objects_monotone", "C03.world_history_objects_monotone", "C03.put_monotone", "C03.puts_monotone", "C03.put_present", "C03.name_is_hash", "C03.branch_target_present", "C10.add_invalid", "C19.get_returns_requested"}, histRule+"; hostile stream: ids of blobs/trees given to update-ref, names with '/', '..', resets to zero-id reflog entries",
 		func(ctx *Ctx) *HistCfg {
 			return &HistCfg{Prop: "C03", Cases: tierN(ctx, 150, 1500), MinSteps: 10, MaxSteps: 40,
 				W:       weights(Weights{"update-ref": 5, "branch": 4, "branch-rename": 3, "reset": 6, "junk": 6, "switch-c": 2, "commit-inject": 4, "fd-swap": 4, "restore": 6}),
